@@ -26,6 +26,7 @@ import types
 from . import tast
 
 _counter = itertools.count()
+_NOCONST = object()
 
 
 def _fresh(v):
@@ -135,9 +136,9 @@ class Family:
             lines.append(f"    {n} = {v!r}")
         return "\n".join(lines) + "\n"
 
-    def _defval(self, cls, fname, t, seed, value_maker):
+    def _defval(self, cls, fname, t, seed, value_maker, const=_NOCONST):
         key = f"{cls}.{fname}"
-        v = value_maker(t, seed)
+        v = value_maker(t, seed) if const is _NOCONST else const
         self.module._V[key] = v
         self.values[(cls, fname)] = v
         return f"_V[{key!r}]"
@@ -193,9 +194,9 @@ class Family:
                 tsrc = repr(tsrc)
             fargs = []
             if f.get("dmode") == "default":
-                fargs.append("default=" + self._defval(d["name"], f["n"], f["t"], f["dseed"], value_maker))
+                fargs.append("default=" + self._defval(d["name"], f["n"], f["t"], f["dseed"], value_maker, f.get("const_default", _NOCONST)))
             elif f.get("dmode") == "factory":
-                ref = self._defval(d["name"], f["n"], f["t"], f["dseed"], value_maker)
+                ref = self._defval(d["name"], f["n"], f["t"], f["dseed"], value_maker, f.get("const_default", _NOCONST))
                 # a factory returning a fresh deep copy each time
                 fargs.append(f"default_factory=(lambda: _fresh({ref}))")
             meta = dict(f.get("meta") or {})
